@@ -812,6 +812,7 @@ func c10R4(c *Ctx, r *Report) {
 		}
 		// wildcard: Labels-- on the HasPrefix(h0.Name, "*") edge
 		okWild := false
+		wildProblem := ""
 		allInstrs(fn, func(in ssa.Instruction) {
 			st, isSt := in.(*ssa.Store)
 			if !isSt || !fieldPathOf(isValue(rr), "Labels")(st.Addr) {
@@ -826,13 +827,23 @@ func c10R4(c *Ctx, r *Report) {
 			}
 			if len(guardsMissing(fn, st.Block(), []Guard{{Op: "call", A: func(v ssa.Value) bool {
 				call, ok := v.(*ssa.Call)
-				return ok && calleeNameSSA(&call.Call) == "strings.HasPrefix" && anyIn(sliceOf(call.Call.Args[0]), fieldPathOf(isH0, "Name"))
+				if !(ok && calleeNameSSA(&call.Call) == "strings.HasPrefix" && anyIn(sliceOf(call.Call.Args[0]), fieldPathOf(isH0, "Name"))) {
+					return false
+				}
+				// the wildcard is a LABEL: the prefix tested is "*." (a label "*abc" is not a wildcard)
+				if k, isK := call.Call.Args[1].(*ssa.Const); !isK || k.Value == nil || k.Value.ExactString() != `"*."` {
+					wildProblem = fmt.Sprintf("%s: a wildcard owner is recognised by the prefix %v, not by a leading \"*\" label: an ordinary owner such as *abc.example.org. is signed as *.example.org. and the RRSIG verifies every name under example.org.", c.pos(call.Pos()), call.Call.Args[1])
+				}
+				return true
 			}, Holds: true}})) == 0 && reach(st.Block(), nil, nil)[sign.Block()] {
 				okWild = true
 			}
 		})
 		if !okWild {
 			problems = append(problems, "the label count is not reduced by one for a wildcard owner")
+		}
+		if wildProblem != "" {
+			problems = append(problems, wildProblem)
 		}
 		if signs[0].Common().Args[0] != rr || signs[0].Common().Args[2] != rrset {
 			problems = append(problems, "signAsIs is not applied to the same RRSIG and RRset")
